@@ -1068,6 +1068,13 @@ fn directed(ctx: &mut Ctx) {
         }
         ctx.shape("directed:estimate_size".into());
     }
+    // one descent between adjacent positions of a slice, at an even and at an odd position
+    for ys in [vec![5usize, 3], vec![0, 5, 3, 7], vec![10, 20, 19, 40, 41], vec![1, 2, 3, 4, 5, 4], vec![1, 2, 3, 4, 3, 9, 9]] {
+        ctx.case();
+        let mut s = fresh();
+        exec(ctx, &mut s, &format!("from_slice {}", fmt_list(ys.iter())));
+        ctx.shape("slice-rejected:directed".into());
+    }
     if ctx.tier == Tier::Quick {
         span_boundary_case(ctx, 65537, &["custom3", "seq"]);
         span_boundary_case(ctx, 65536, &["custom3"]);
@@ -1268,11 +1275,21 @@ fn random_case(ctx: &mut Ctx) {
         }
         6 | 7 => {
             mname = "slice";
-            if ctx.rng.chance(1, 15) && n >= 2 && xs[0] != xs[n - 1] {
+            if ctx.rng.chance(1, 8) && n >= 2 && xs[0] != xs[n - 1] {
                 // not monotone: rejected
                 ctx.stat("malformed:slice");
                 let mut ys = xs.clone();
-                ys.swap(0, n - 1);
+                // either the two ends, or ONE descent between two adjacent positions (at any
+                // position: a validation that looks at disjoint pairs, or only at every other
+                // element, must still see it)
+                let adj: Vec<usize> = (0..n - 1).filter(|&i| xs[i] != xs[i + 1]).collect();
+                if ctx.rng.chance(2, 3) && !adj.is_empty() {
+                    let i = *ctx.rng.pick(&adj);
+                    ys.swap(i, i + 1);
+                    ctx.stat(if i % 2 == 0 { "malformed:slice:adjacent-even" } else { "malformed:slice:adjacent-odd" });
+                } else {
+                    ys.swap(0, n - 1);
+                }
                 exec(ctx, &mut s, &format!("from_slice {}", fmt_list(ys.iter())));
                 ctx.shape(format!("slice-rejected:{}", class_n(n)));
                 return;
